@@ -419,14 +419,14 @@ fn claims_case(g: &mut Gen, ctx: &mut Ctx) -> CaseResult {
         c.cwt_id = Some(b);
     }
     let mut rest: Vec<(Item, Item)> = vec![];
-    for i in 0..g.weighted(&[3, 3, 2, 1]) {
+    for i in 0..g.weighted(&[3, 3, 2, 2, 1]) {
         let (name, key) = match g.below(3) {
             0 => {
                 let t = format!("{}{}", g.text(), i);
                 (ClaimName::Text(t.clone()), Item::Text(t))
             }
             1 => {
-                let n = -65537 - 7 * i as i64 - g.range_i64(0, 5);
+                let n = if g.ratio(1, 3) { *g.pick(&[i64::MIN, i64::MIN + 1, -65537, -65538, -65537 - 64, -65537 - 128]) } else { -65537 - 7 * i as i64 - g.range_i64(0, 5) };
                 (ClaimName::PrivateUse(n), Item::Int(n as i128))
             }
             _ => {
